@@ -1,7 +1,7 @@
 //! C19 — unused-declaration lint is exact where usage is known.
 //!
 //! usage:
-//!   c19 gen <seed> <nprojects> <groups_per_project> <out.jsonl>     generate marked projects
+//!   c19 gen <seed> <first> <nprojects> <groups_per_project> <out.jsonl>   generate marked projects first..first+n
 //!   c19 run <projects.jsonl> <workdir> <out.jsonl> <model_cases>     analyse them, extract events
 //!   c19 dump <file.vhd>...                                           debugging aid
 //!
@@ -453,10 +453,11 @@ fn main() {
     match args[1].as_str() {
         "gen" => {
             let seed: u64 = args[2].parse().unwrap();
-            let np: usize = args[3].parse().unwrap();
-            let gpp: usize = args[4].parse().unwrap();
-            let mut out = std::io::BufWriter::new(std::fs::File::create(&args[5]).unwrap());
-            for pi in 0..np {
+            let first: usize = args[3].parse().unwrap();
+            let np: usize = args[4].parse().unwrap();
+            let gpp: usize = args[5].parse().unwrap();
+            let mut out = std::io::BufWriter::new(std::fs::File::create(&args[6]).unwrap());
+            for pi in first..first + np {
                 let pj = gen::gen_project(seed, pi, gpp);
                 writeln!(out, "{}", pj).unwrap();
             }
